@@ -1,10 +1,609 @@
-// Simulated kernel, part 2: network (sockets, poll). Filled in with the socket harnesses.
+// Simulated kernel, part 2: sockets (AF_INET/AF_INET6, stream + datagram, loopback semantics) and poll.
 #include "sim.h"
 #include "core.h"
 #include "kernel.h"
 #include "kernel_int.h"
+#include "knet.h"
+#include <arpa/inet.h>
+#include <errno.h>
+#include <fcntl.h>
+#include <netinet/in.h>
+#include <poll.h>
+#include <signal.h>
+#include <stdarg.h>
+#include <stdio.h>
+#include <string.h>
+#include <sys/socket.h>
+#include <unistd.h>
+#include <algorithm>
+#include <deque>
+
+using namespace sim;
+using namespace sim::kern;
 
 namespace sim { namespace kern {
-void net_run_end() {}
-void sock_release(SockObj *) {}
-} }
+
+struct Net {
+  std::vector<SockObj *> socks;
+  uint16_t next_port = 40000;
+  uint64_t wire_seq = 0;
+  NetStats stats;
+};
+static Net &net() { if (!k->net) k->net = new Net(); return *k->net; }
+
+void net_run_end() {
+  if (!k || !k->net) return;
+  for (auto *s : k->net->socks) delete s;
+  delete k->net;
+  k->net = nullptr;
+}
+NetStats &net_stats() { return net().stats; }
+void set_net_defaults(int sndbuf, int rcvbuf, bool nf) { k->default_sndbuf = sndbuf; k->default_rcvbuf = rcvbuf; k->net_faults = nf; }
+int sock_count_open() { int n = 0; for (auto *s : net().socks) if (s->fdrefs > 0) n++; return n; }
+SockObj *sock_by_id(int id) { return id >= 0 && id < (int)net().socks.size() ? net().socks[id] : nullptr; }
+SockObj *sock_of_fd(int proc, int fd) { auto &f = proc_of(proc).fds; auto it = f.find(fd); return it == f.end() || it->second.kind != FD_SOCK ? nullptr : it->second.sock; }
+
+static void wake_sock(SockObj *s) {
+  for (int i = 0; i < ntasks(); i++) { Task *t = task(i); if (t->state == T_BLOCKED && t->bkind == B_SOCK && t->bobj == s->id) wake(t); }
+}
+
+static bool addr_any(const NAddr &a) { static const uint8_t z[16] = {0}; return memcmp(a.ip, z, a.family == AF_INET ? 4 : 16) == 0; }
+static bool addr_match(const NAddr &bound, const NAddr &dst) {
+  if (bound.family != dst.family) return false;
+  if (bound.port != dst.port) return false;
+  if (addr_any(bound)) return true;
+  return memcmp(bound.ip, dst.ip, bound.family == AF_INET ? 4 : 16) == 0;
+}
+static bool from_sockaddr(const struct sockaddr *sa, socklen_t len, NAddr &out) {
+  out = NAddr();
+  if (!sa || len < sizeof(sa_family_t)) return false;
+  out.family = sa->sa_family;
+  if (sa->sa_family == AF_INET) {
+    if (len < sizeof(struct sockaddr_in)) return false;
+    auto *in = (const struct sockaddr_in *)sa;
+    memcpy(out.ip, &in->sin_addr, 4); out.port = ntohs(in->sin_port);
+    return true;
+  }
+  if (sa->sa_family == AF_INET6) {
+    if (len < sizeof(struct sockaddr_in6)) return false;
+    auto *in6 = (const struct sockaddr_in6 *)sa;
+    memcpy(out.ip, &in6->sin6_addr, 16); out.port = ntohs(in6->sin6_port); out.flow = in6->sin6_flowinfo; out.scope = in6->sin6_scope_id;
+    return true;
+  }
+  return false;
+}
+static socklen_t to_sockaddr(const NAddr &a, struct sockaddr *sa, socklen_t *len) {
+  struct sockaddr_storage ss; memset(&ss, 0, sizeof ss);
+  socklen_t n;
+  if (a.family == AF_INET6) {
+    auto *in6 = (struct sockaddr_in6 *)&ss; in6->sin6_family = AF_INET6; memcpy(&in6->sin6_addr, a.ip, 16); in6->sin6_port = htons(a.port); in6->sin6_flowinfo = a.flow; in6->sin6_scope_id = a.scope;
+    n = sizeof(struct sockaddr_in6);
+  } else {
+    auto *in = (struct sockaddr_in *)&ss; in->sin_family = AF_INET; memcpy(&in->sin_addr, a.ip, 4); in->sin_port = htons(a.port);
+    n = sizeof(struct sockaddr_in);
+  }
+  if (sa && len) { memcpy(sa, &ss, std::min<socklen_t>(*len, n)); *len = n; }
+  return n;
+}
+static void loopback_of(int family, NAddr &a) {
+  a = NAddr(); a.family = family;
+  if (family == AF_INET) { a.ip[0] = 127; a.ip[3] = 1; } else a.ip[15] = 1;
+}
+static bool port_in_use(SockObj *self, const NAddr &a) {
+  for (auto *o : net().socks) {
+    if (o == self || !o->bound || o->fdrefs <= 0 || o->type != self->type || o->local.family != a.family || o->local.port != a.port) continue;
+    if (o->accepted_child) continue;                       // shares the listener's port
+    bool overlap = addr_any(o->local) || addr_any(a) || memcmp(o->local.ip, a.ip, 16) == 0;
+    if (!overlap) continue;
+    if (o->so_reuseport && self->so_reuseport) continue;
+    if (o->so_reuseaddr && self->so_reuseaddr && o->state != SS_LISTEN) continue;
+    return true;
+  }
+  return false;
+}
+static void autobind(SockObj *s) {
+  if (s->bound) return;
+  NAddr a; loopback_of(s->domain, a);
+  if (s->type == SOCK_DGRAM) memset(a.ip, 0, 16);
+  do { a.port = net().next_port++; if (net().next_port < 40000) net().next_port = 40000; } while (port_in_use(s, a));
+  s->local = a; s->bound = true;
+}
+
+// --- stream delivery: bytes accepted by send() travel on the "wire" and reach the peer's receive queue after a delay
+static void deliver_stream(SockObj *from) {
+  SockObj *to = from->peer;
+  if (!to || to->state == SS_CLOSED) { from->wire.clear(); return; }
+  size_t room = to->rx.size() < (size_t)to->rcvbuf ? (size_t)to->rcvbuf - to->rx.size() : 0;
+  size_t n = std::min(room, from->wire.size());
+  if (to->shut_rd) { n = from->wire.size(); from->wire.erase(from->wire.begin(), from->wire.begin() + n); n = 0; }
+  if (n) {
+    to->rx.insert(to->rx.end(), from->wire.begin(), from->wire.begin() + n);
+    from->wire.erase(from->wire.begin(), from->wire.begin() + n);
+    wake_sock(to);
+  }
+  if (from->wire.empty() && from->fin_pending) { from->fin_pending = false; to->rx_fin = true; wake_sock(to); }
+  if (n) wake_sock(from);     // send buffer space
+}
+static void schedule_delivery(SockObj *from) {
+  uint64_t delay = 0;
+  if (cfg().p[ST_NET] > 0 && flip(ST_NET, cfg().p[ST_NET])) { delay = 1000ULL * (1 + choose(ST_NET, 3000)); net().stats.delayed++; }
+  int id = from->id;
+  uint64_t at = std::max(now_ns() + delay, from->last_delivery_at);   // order preserved
+  from->last_delivery_at = at;
+  if (delay == 0 && at <= now_ns()) { deliver_stream(from); return; }
+  add_timer(at, [id]() { SockObj *s = sock_by_id(id); if (s) deliver_stream(s); });
+}
+
+static void send_rst(SockObj *s) {
+  SockObj *p = s->peer;
+  if (!p || p->state == SS_CLOSED) return;
+  p->rx_rst = true; p->rx.clear(); p->peer_gone = true;
+  net().stats.resets++;
+  wake_sock(p);
+}
+
+void sock_release(SockObj *s) {
+  if (--s->fdrefs > 0) return;
+  // last descriptor closed
+  if (s->type == SOCK_STREAM) {
+    if (s->state == SS_LISTEN) {
+      for (auto *c : s->accept_q) { c->state = SS_CLOSED; send_rst(c); }
+      s->accept_q.clear();
+      // connections still in the handshake are refused
+      for (auto *o : net().socks) if (o->connecting_to == s) { o->connecting_to = nullptr; o->so_error = ECONNREFUSED; o->state = SS_NEW; o->connect_done = true; wake_sock(o); }
+    } else if (s->state == SS_CONNECTED || s->state == SS_CONNECTING) {
+      SockObj *p = s->peer;
+      if (p && p->state != SS_CLOSED) {
+        if (!s->rx.empty() || s->rx_rst) send_rst(s);                 // unread data: reset
+        else { p->peer_gone = true; if (s->wire.empty()) { p->rx_fin = true; wake_sock(p); } else s->fin_pending = true; }
+      }
+    }
+  }
+  s->state = SS_CLOSED;
+  wake_sock(s);
+}
+
+static SockObj *cur_sock(int fd, int *err) {
+  FdEnt *e = fd_get(fd);
+  if (!e) { *err = EBADF; return nullptr; }
+  if (e->kind != FD_SOCK) { *err = ENOTSOCK; return nullptr; }
+  return e->sock;
+}
+
+static short poll_events(SockObj *s, short want) {
+  short r = 0;
+  if (s->type == SOCK_STREAM) {
+    if (s->state == SS_LISTEN) { if (!s->accept_q.empty()) r |= POLLIN; }
+    else if (s->state == SS_CONNECTED) {
+      if (!s->rx.empty() || s->rx_fin || s->shut_rd) r |= POLLIN;
+      if (s->rx_rst) r |= POLLIN | POLLERR | POLLHUP;
+      if (s->rx_fin && s->shut_wr) r |= POLLHUP;
+      if (s->wire.size() < (size_t)s->sndbuf && !s->shut_wr) r |= POLLOUT;
+      if (s->peer_gone && !s->rx_rst) r |= POLLOUT;      // a write would fail at once: writable
+    } else if (s->state == SS_CONNECTING) { /* nothing yet */ }
+    else if (s->state == SS_NEW) {
+      if (s->connect_done && s->so_error) r |= POLLOUT | POLLERR | POLLHUP | POLLIN;
+      else r |= POLLOUT | POLLHUP;                       // unconnected stream socket: Linux reports POLLOUT|POLLHUP
+    }
+  } else {
+    if (!s->dq.empty()) r |= POLLIN;
+    r |= POLLOUT;
+  }
+  return (short)(r & (want | POLLERR | POLLHUP));
+}
+
+// block the current task until the socket changes or the deadline passes; returns false on timeout
+static bool wait_sock(SockObj *s, uint64_t deadline) {
+  Task *t = cur();
+  if (deadline != UINT64_MAX) {
+    int id = t->id; uint64_t gen = ++R->sleep_gen[id];
+    add_timer(deadline, [id, gen]() { Task *x = task(id); if (x && x->state == T_BLOCKED && x->bkind == B_SOCK && R->sleep_gen[id] == gen) wake(x); });
+    t->has_timer = true;
+  }
+  block(B_SOCK, s->id);
+  return deadline == UINT64_MAX || now_ns() < deadline;
+}
+
+} }  // namespace sim::kern
+
+extern "C" {
+
+typedef void (*sighandler_fn)(int);
+sighandler_fn simk_signal(int sig, sighandler_fn h) {
+  Task *t = cur();
+  if (t && sig == SIGPIPE) proc_of(t->proc).sigpipe_ignored = (h == SIG_IGN);
+  return SIG_DFL;
+}
+
+int simk_socket(int domain, int type, int protocol) {
+  int n = sc_enter(SC_SOCKET);
+  Task *t = cur(); if (!t) { errno = ENOSYS; return -1; }
+  int err = want_fail(SC_SOCKET, n);
+  bool cloexec = type & SOCK_CLOEXEC, nonblock = type & SOCK_NONBLOCK;
+  int ty = type & ~(SOCK_CLOEXEC | SOCK_NONBLOCK);
+  if (!err) {
+    if (domain != AF_INET && domain != AF_INET6) err = EAFNOSUPPORT;
+    else if (ty != SOCK_STREAM && ty != SOCK_DGRAM) err = (ty == SOCK_SEQPACKET) ? EPROTONOSUPPORT : ESOCKTNOSUPPORT;
+    else if (ty == SOCK_STREAM && protocol != 0 && protocol != IPPROTO_TCP) err = EPROTONOSUPPORT;
+    else if (ty == SOCK_DGRAM && protocol != 0 && protocol != IPPROTO_UDP) err = EPROTONOSUPPORT;
+  }
+  if (err) { errno = err; ev("socket_fail", err); return -1; }
+  SockObj *s = new SockObj();
+  s->id = (int)net().socks.size(); s->domain = domain; s->type = ty; s->nonblock = nonblock;
+  s->sndbuf = k->default_sndbuf; s->rcvbuf = k->default_rcvbuf;
+  net().socks.push_back(s);
+  FdEnt e; e.kind = FD_SOCK; e.sock = s; e.cloexec = cloexec; e.nonblock = nonblock;
+  s->fdrefs = 1;
+  int fd = fd_alloc(proc_of(t->proc), e);
+  ev("socket", s->id, fd);
+  return fd;
+}
+
+int simk_fcntl(int fd, int cmd, ...) {
+  sc_enter(SC_FCNTL);
+  va_list ap; va_start(ap, cmd); long arg = va_arg(ap, long); va_end(ap);
+  FdEnt *e = fd_get(fd);
+  if (!e) { errno = EBADF; return -1; }
+  switch (cmd) {
+  case F_GETFD: return e->cloexec ? FD_CLOEXEC : 0;
+  case F_SETFD: e->cloexec = arg & FD_CLOEXEC; return 0;
+  case F_GETFL: return O_RDWR | (e->nonblock ? O_NONBLOCK : 0);
+  case F_SETFL: e->nonblock = arg & O_NONBLOCK; if (e->sock) e->sock->nonblock = e->nonblock; return 0;
+  default: errno = EINVAL; return -1;
+  }
+}
+
+int simk_setsockopt(int fd, int level, int opt, const void *val, socklen_t len) {
+  int n = sc_enter(SC_SETSOCKOPT);
+  int err = 0; SockObj *s = cur_sock(fd, &err);
+  if (!s) { errno = err; return -1; }
+  if ((err = want_fail(SC_SETSOCKOPT, n))) { errno = err; return -1; }
+  if (level != SOL_SOCKET) { errno = ENOPROTOOPT; return -1; }
+  if (len < sizeof(int)) { errno = EINVAL; return -1; }
+  int v; memcpy(&v, val, sizeof v);
+  switch (opt) {
+  case SO_REUSEADDR: s->so_reuseaddr = v != 0; return 0;
+  case SO_REUSEPORT: s->so_reuseport = v != 0; return 0;
+  case SO_KEEPALIVE: s->so_keepalive = v != 0; return 0;
+  case SO_SNDBUF: s->sndbuf = std::max(v, 1); return 0;      // (Linux doubles and clamps; the model keeps the request, min 1)
+  case SO_RCVBUF: s->rcvbuf = std::max(v, 1); return 0;
+  default: errno = ENOPROTOOPT; return -1;
+  }
+}
+int simk_getsockopt(int fd, int level, int opt, void *val, socklen_t *len) {
+  sc_enter(SC_GETSOCKOPT);
+  int err = 0; SockObj *s = cur_sock(fd, &err);
+  if (!s) { errno = err; return -1; }
+  if (level != SOL_SOCKET) { errno = ENOPROTOOPT; return -1; }
+  int v;
+  switch (opt) {
+  case SO_TYPE: v = s->type; break;
+  case SO_DOMAIN: v = s->domain; break;
+  case SO_KEEPALIVE: v = s->so_keepalive; break;
+  case SO_ERROR: v = s->so_error; s->so_error = 0; break;
+  case SO_SNDBUF: v = s->sndbuf; break;
+  case SO_RCVBUF: v = s->rcvbuf; break;
+  case SO_REUSEADDR: v = s->so_reuseaddr; break;
+  default: errno = ENOPROTOOPT; return -1;
+  }
+  if (*len < sizeof(int)) { errno = EINVAL; return -1; }
+  memcpy(val, &v, sizeof v); *len = sizeof v;
+  return 0;
+}
+int simk_getsockname(int fd, struct sockaddr *sa, socklen_t *len) {
+  sc_enter(SC_GETSOCKNAME);
+  int err = 0; SockObj *s = cur_sock(fd, &err);
+  if (!s) { errno = err; return -1; }
+  NAddr a = s->local;
+  if (!s->bound) { a = NAddr(); a.family = s->domain; }
+  to_sockaddr(a, sa, len);
+  return 0;
+}
+int simk_getpeername(int fd, struct sockaddr *sa, socklen_t *len) {
+  sc_enter(SC_GETPEERNAME);
+  int err = 0; SockObj *s = cur_sock(fd, &err);
+  if (!s) { errno = err; return -1; }
+  if (!s->has_peer || (s->type == SOCK_STREAM && s->state != SS_CONNECTED)) { errno = ENOTCONN; return -1; }
+  to_sockaddr(s->peer_addr, sa, len);
+  return 0;
+}
+
+int simk_bind(int fd, const struct sockaddr *sa, socklen_t len) {
+  int n = sc_enter(SC_BIND);
+  int err = 0; SockObj *s = cur_sock(fd, &err);
+  if (!s) { errno = err; return -1; }
+  if ((err = want_fail(SC_BIND, n))) { errno = err; return -1; }
+  NAddr a;
+  if (!from_sockaddr(sa, len, a)) { errno = EINVAL; return -1; }
+  if (a.family != s->domain) { errno = EAFNOSUPPORT; return -1; }
+  if (s->bound) { errno = EINVAL; return -1; }
+  if (a.port == 0) { s->local = a; do { s->local.port = net().next_port++; } while (port_in_use(s, s->local)); s->bound = true; }
+  else { if (port_in_use(s, a)) { errno = EADDRINUSE; return -1; } s->local = a; s->bound = true; }
+  ev("bind", s->id, s->local.port);
+  return 0;
+}
+int simk_listen(int fd, int backlog) {
+  int n = sc_enter(SC_LISTEN);
+  int err = 0; SockObj *s = cur_sock(fd, &err);
+  if (!s) { errno = err; return -1; }
+  if ((err = want_fail(SC_LISTEN, n))) { errno = err; return -1; }
+  if (s->type != SOCK_STREAM) { errno = EOPNOTSUPP; return -1; }
+  if (s->state == SS_CONNECTED || s->state == SS_CONNECTING) { errno = EINVAL; return -1; }
+  autobind(s);
+  s->state = SS_LISTEN; s->backlog = backlog < 0 ? 0 : backlog;
+  ev("listen", s->id, backlog);
+  return 0;
+}
+
+// connection establishment completes (or fails) as an event on the simulated clock
+static void finish_connect(int cid) {
+  SockObj *c = sock_by_id(cid);
+  if (!c || c->state != SS_CONNECTING) return;
+  SockObj *l = c->connecting_to;
+  if (!l || l->state != SS_LISTEN) {
+    c->state = SS_NEW; c->so_error = ECONNREFUSED; c->connect_done = true; c->connecting_to = nullptr; net().stats.refused++;
+    wake_sock(c); return;
+  }
+  if (l->accept_q.size() >= (size_t)l->backlog + 1) {
+    // backlog full: the SYN is dropped; retried later, gives up after ~130 s
+    if (now_ns() - c->connect_started > 130ULL * 1000000000ULL) { c->state = SS_NEW; c->so_error = ETIMEDOUT; c->connect_done = true; c->connecting_to = nullptr; wake_sock(c); return; }
+    net().stats.backlog_stalls++;
+    probe("sock.backlog_stall");
+    add_timer(now_ns() + 1000000000ULL, [cid]() { finish_connect(cid); });
+    return;
+  }
+  SockObj *child = new SockObj();
+  child->id = (int)net().socks.size(); child->domain = l->domain; child->type = SOCK_STREAM; child->state = SS_CONNECTED;
+  child->local = l->local; if (addr_any(child->local)) memcpy(child->local.ip, c->peer_addr.ip, 16);
+  child->bound = true; child->accepted_child = true;
+  child->peer_addr = c->local; child->has_peer = true;
+  child->sndbuf = l->sndbuf; child->rcvbuf = l->rcvbuf; child->nonblock = false;
+  child->peer = c; c->peer = child;
+  net().socks.push_back(child);
+  l->accept_q.push_back(child);
+  c->state = SS_CONNECTED; c->connect_done = true; c->connect_ok_unreported = true; c->connecting_to = nullptr;
+  c->was_connected = child->was_connected = true;
+  ev("connected", c->id, child->id);
+  wake_sock(c); wake_sock(l);
+}
+
+int simk_connect(int fd, const struct sockaddr *sa, socklen_t len) {
+  int n = sc_enter(SC_CONNECT);
+  int err = 0; SockObj *s = cur_sock(fd, &err);
+  if (!s) { errno = err; return -1; }
+  if ((err = want_fail(SC_CONNECT, n))) { errno = err; return -1; }
+  NAddr a;
+  if (!from_sockaddr(sa, len, a)) { errno = EINVAL; return -1; }
+  if (a.family != s->domain) { errno = EAFNOSUPPORT; return -1; }
+  if (s->type == SOCK_DGRAM) { autobind(s); s->peer_addr = a; s->has_peer = true; return 0; }
+  if (s->state == SS_LISTEN) { errno = EISCONN; return -1; }
+  if (s->state == SS_CONNECTING) { errno = EALREADY; return -1; }
+  if (s->state == SS_CONNECTED) {
+    if (s->connect_ok_unreported) { s->connect_ok_unreported = false; return 0; }   // first connect() after asynchronous completion
+    errno = EISCONN; return -1;
+  }
+  bool interrupted = want_eintr(SC_CONNECT, n);
+  if (interrupted && choose(ST_EINTR, 2) == 0) { errno = EINTR; probe("eintr.connect_before_start"); return -1; }   // signal before anything happened
+  autobind(s);
+  s->peer_addr = a; s->has_peer = true; s->so_error = 0; s->connect_done = false; s->connect_ok_unreported = false;
+  SockObj *l = nullptr;
+  for (auto *o : net().socks) if (o->state == SS_LISTEN && o->fdrefs > 0 && o->type == SOCK_STREAM && addr_match(o->local, a)) l = o;
+  s->state = SS_CONNECTING; s->connecting_to = l; s->connect_started = now_ns();
+  uint64_t delay = 20000 + 1000ULL * choose(ST_NET, 200);
+  if (cfg().p[ST_NET] > 0 && flip(ST_NET, cfg().p[ST_NET])) delay += 1000000ULL * (1 + choose(ST_NET, 50));
+  int cid = s->id;
+  add_timer(now_ns() + delay, [cid]() { finish_connect(cid); });
+  ev("connect_start", s->id, l ? l->id : -1);
+  if (interrupted) { errno = EINTR; probe("eintr.connect_after_start"); return -1; }
+  if (!s->nonblock) {
+    while (s->state == SS_CONNECTING) wait_sock(s, UINT64_MAX);
+    if (s->state == SS_CONNECTED) { s->connect_ok_unreported = false; return 0; }
+    errno = s->so_error; s->so_error = 0; return -1;
+  }
+  errno = EINPROGRESS;
+  return -1;
+}
+
+int simk_accept(int fd, struct sockaddr *sa, socklen_t *len) {
+  int n = sc_enter(SC_ACCEPT);
+  Task *t = cur();
+  int err = 0; SockObj *s = cur_sock(fd, &err);
+  if (!s) { errno = err; return -1; }
+  if ((err = want_fail(SC_ACCEPT, n))) { errno = err; return -1; }
+  if (s->type != SOCK_STREAM) { errno = EOPNOTSUPP; return -1; }
+  if (s->state != SS_LISTEN) { errno = EINVAL; return -1; }
+  for (;;) {
+    if (want_eintr(SC_ACCEPT, n)) { errno = EINTR; probe("eintr.accept"); return -1; }
+    if (!s->accept_q.empty()) {
+      if (cfg().p[ST_SHORT] > 0 && flip(ST_SHORT, cfg().p[ST_SHORT] * 0.5)) { errno = EAGAIN; probe("sock.eagain_after_poll"); net().stats.spurious_eagain++; return -1; }
+      break;
+    }
+    if (s->nonblock) { errno = EAGAIN; return -1; }
+    wait_sock(s, UINT64_MAX);
+    if (s->state != SS_LISTEN) { errno = EBADF; return -1; }
+    n = -1;
+  }
+  SockObj *c = s->accept_q.front(); s->accept_q.pop_front();
+  FdEnt e; e.kind = FD_SOCK; e.sock = c; e.cloexec = false; e.nonblock = false;
+  c->fdrefs = 1;
+  int nfd = fd_alloc(proc_of(t->proc), e);
+  if (sa && len) to_sockaddr(c->peer_addr, sa, len);
+  ev("accept", s->id, c->id);
+  return nfd;
+}
+
+static ssize_t do_send(int call, int fd, const void *buf, size_t len, int flags, const struct sockaddr *to, socklen_t tolen) {
+  int n = sc_enter(call);
+  Task *t = cur();
+  int err = 0; SockObj *s = cur_sock(fd, &err);
+  if (!s) { errno = err; return -1; }
+  if ((err = want_fail(call, n))) { errno = err; return -1; }
+  if (s->type == SOCK_DGRAM) {
+    NAddr dst;
+    if (to) { if (!from_sockaddr(to, tolen, dst)) { errno = EINVAL; return -1; } if (dst.family != s->domain) { errno = EAFNOSUPPORT; return -1; } }
+    else if (s->has_peer) dst = s->peer_addr;
+    else { errno = EDESTADDRREQ; return -1; }
+    if (len > 65507) { errno = EMSGSIZE; return -1; }
+    if (want_eintr(call, n)) { errno = EINTR; probe(call == SC_SENDTO ? "eintr.sendto" : "eintr.send"); return -1; }
+    autobind(s);
+    Dgram d; d.data.assign((const char *)buf, len); d.from = s->local;
+    if (addr_any(d.from)) loopback_of(s->domain, d.from), d.from.port = s->local.port;
+    d.serial = ++net().wire_seq;
+    SockObj *dstsock = nullptr;
+    for (auto *o : net().socks) if (o->type == SOCK_DGRAM && o->bound && o->fdrefs > 0 && addr_match(o->local, dst)) dstsock = o;
+    net().stats.dgrams_sent++;
+    ev("dgram_send", s->id, (int64_t)len);
+    if (dstsock) {
+      bool lose = false, dup = false; uint64_t delay = 0;
+      if (k->net_faults && cfg().p[ST_NET] > 0) {
+        if (flip(ST_NET, cfg().p[ST_NET] * 0.5)) { lose = true; net().stats.dgrams_lost++; }
+        else if (flip(ST_NET, cfg().p[ST_NET] * 0.5)) { dup = true; net().stats.dgrams_dup++; }
+        if (flip(ST_NET, cfg().p[ST_NET])) { delay = 1000ULL * (1 + choose(ST_NET, 5000)); net().stats.dgrams_delayed++; }
+      }
+      int did = dstsock->id;
+      auto deliver = [did, d]() {
+        SockObj *o = sock_by_id(did);
+        if (!o || o->fdrefs <= 0) return;
+        size_t used = 0; for (auto &x : o->dq) used += x.data.size() + 1;
+        if (used + d.data.size() > (size_t)o->rcvbuf + 65536) { net().stats.dgrams_dropped_full++; return; }
+        o->dq.push_back(d); wake_sock(o);
+      };
+      if (!lose) { if (delay) add_timer(now_ns() + delay, deliver); else deliver(); if (dup) add_timer(now_ns() + delay + 1000, deliver); }
+    }
+    return (ssize_t)len;
+  }
+  // stream
+  if (s->state == SS_CONNECTING) { errno = EAGAIN; return -1; }
+  if (s->state != SS_CONNECTED) { errno = s->connect_done && s->so_error ? s->so_error : (s->was_connected ? EPIPE : ENOTCONN); return -1; }
+  if (s->rx_rst) { s->rx_rst = false; errno = ECONNRESET; return -1; }
+  if (s->shut_wr || s->peer_gone) {
+    // writing to a peer that has gone: EPIPE, and SIGPIPE unless suppressed
+    if (!(flags & MSG_NOSIGNAL) && !proc_of(t->proc).sigpipe_ignored) { k->sigpipes++; ev("SIGPIPE", s->id); }
+    probe("sock.epipe");
+    errno = EPIPE; return -1;
+  }
+  for (;;) {
+    if (want_eintr(call, n)) { errno = EINTR; probe("eintr.send"); return -1; }
+    size_t room = s->wire.size() < (size_t)s->sndbuf ? (size_t)s->sndbuf - s->wire.size() : 0;
+    if (room > 0) {
+      if (cfg().p[ST_SHORT] > 0 && flip(ST_SHORT, cfg().p[ST_SHORT] * 0.5)) { errno = EAGAIN; probe("sock.eagain_after_poll"); net().stats.spurious_eagain++; return -1; }
+      size_t take = std::min(room, len);
+      if (take > 1 && cfg().p[ST_SHORT] > 0 && flip(ST_SHORT, cfg().p[ST_SHORT])) { take = 1 + choose(ST_SHORT, (uint32_t)take - 1); }
+      if (take < len) { probe("sock.short_send"); net().stats.short_sends++; }
+      s->wire.insert(s->wire.end(), (const uint8_t *)buf, (const uint8_t *)buf + take);
+      ev("stream_send", s->id, (int64_t)take);
+      schedule_delivery(s);
+      return (ssize_t)take;
+    }
+    probe("sock.send_buffer_full");
+    if (s->nonblock || (flags & MSG_DONTWAIT)) { errno = EAGAIN; return -1; }
+    wait_sock(s, UINT64_MAX);
+    if (s->state != SS_CONNECTED || s->peer_gone) { errno = EPIPE; return -1; }
+    n = -1;
+  }
+}
+ssize_t simk_send(int fd, const void *buf, size_t len, int flags) { return do_send(SC_SEND, fd, buf, len, flags, nullptr, 0); }
+ssize_t simk_sendto(int fd, const void *buf, size_t len, int flags, const struct sockaddr *to, socklen_t tolen) {
+  int err = 0; SockObj *s = cur() ? cur_sock(fd, &err) : nullptr;
+  if (s && s->type == SOCK_STREAM) to = nullptr;         // address ignored on connection-mode sockets
+  return do_send(SC_SENDTO, fd, buf, len, flags, to, tolen);
+}
+
+static ssize_t do_recv(int call, int fd, void *buf, size_t len, int flags, struct sockaddr *from, socklen_t *fromlen) {
+  int n = sc_enter(call);
+  int err = 0; SockObj *s = cur_sock(fd, &err);
+  if (!s) { errno = err; return -1; }
+  if ((err = want_fail(call, n))) { errno = err; return -1; }
+  for (;;) {
+    if (want_eintr(call, n)) { errno = EINTR; probe(call == SC_RECV ? "eintr.recv" : "eintr.recvfrom"); return -1; }
+    if (s->type == SOCK_DGRAM) {
+      if (!s->dq.empty()) {
+        if (cfg().p[ST_SHORT] > 0 && flip(ST_SHORT, cfg().p[ST_SHORT] * 0.5)) { errno = EAGAIN; probe("sock.eagain_after_poll"); net().stats.spurious_eagain++; return -1; }
+        size_t idx = 0;
+        if (k->net_faults && s->dq.size() > 1 && cfg().p[ST_NET] > 0 && flip(ST_NET, cfg().p[ST_NET])) { idx = 1 + choose(ST_NET, (uint32_t)s->dq.size() - 1); net().stats.dgrams_reordered++; }
+        Dgram d = s->dq[idx]; s->dq.erase(s->dq.begin() + idx);
+        size_t take = std::min(len, d.data.size());
+        memcpy(buf, d.data.data(), take);
+        if (take < d.data.size()) probe("sock.dgram_truncated");
+        if (from && fromlen) to_sockaddr(d.from, from, fromlen);
+        ev("dgram_recv", s->id, (int64_t)take);
+        return (ssize_t)take;
+      }
+    } else {
+      if (s->state == SS_LISTEN || (s->state != SS_CONNECTED && !s->was_connected && !s->connect_done)) { errno = ENOTCONN; return -1; }
+      if (s->state == SS_CONNECTING) { errno = EAGAIN; return -1; }
+      if (s->shut_rd) return 0;
+      if (!s->rx.empty()) {
+        if (cfg().p[ST_SHORT] > 0 && flip(ST_SHORT, cfg().p[ST_SHORT] * 0.5)) { errno = EAGAIN; probe("sock.eagain_after_poll"); net().stats.spurious_eagain++; return -1; }
+        size_t take = std::min(len, s->rx.size());
+        if (take > 1 && cfg().p[ST_SHORT] > 0 && flip(ST_SHORT, cfg().p[ST_SHORT])) { take = 1 + choose(ST_SHORT, (uint32_t)take - 1); probe("sock.short_recv"); }
+        std::copy(s->rx.begin(), s->rx.begin() + take, (uint8_t *)buf);
+        s->rx.erase(s->rx.begin(), s->rx.begin() + take);
+        if (from && fromlen) *fromlen = 0;
+        ev("stream_recv", s->id, (int64_t)take);
+        if (s->peer && !s->peer->wire.empty()) deliver_stream(s->peer);    // window opened
+        return (ssize_t)take;
+      }
+      if (s->rx_rst) { s->rx_rst = false; s->rx_fin = true; errno = ECONNRESET; return -1; }
+      if (s->rx_fin) { if (from && fromlen) *fromlen = 0; return 0; }
+      if (s->state != SS_CONNECTED) { errno = ENOTCONN; return -1; }
+    }
+    if (s->nonblock || (flags & MSG_DONTWAIT)) { errno = EAGAIN; return -1; }
+    wait_sock(s, UINT64_MAX);
+    n = -1;
+  }
+}
+ssize_t simk_recv(int fd, void *buf, size_t len, int flags) { return do_recv(SC_RECV, fd, buf, len, flags, nullptr, nullptr); }
+ssize_t simk_recvfrom(int fd, void *buf, size_t len, int flags, struct sockaddr *from, socklen_t *fromlen) { return do_recv(SC_RECVFROM, fd, buf, len, flags, from, fromlen); }
+
+int simk_shutdown(int fd, int how) {
+  int n = sc_enter(SC_SHUTDOWN);
+  int err = 0; SockObj *s = cur_sock(fd, &err);
+  if (!s) { errno = err; return -1; }
+  if ((err = want_fail(SC_SHUTDOWN, n))) { errno = err; return -1; }
+  if (s->type == SOCK_STREAM && s->state != SS_CONNECTED) { errno = ENOTCONN; return -1; }
+  if (s->type == SOCK_DGRAM && !s->has_peer) { errno = ENOTCONN; return -1; }
+  if (how == SHUT_RD || how == SHUT_RDWR) { s->shut_rd = true; s->rx.clear(); }
+  if (how == SHUT_WR || how == SHUT_RDWR) {
+    if (!s->shut_wr && s->type == SOCK_STREAM) { s->shut_wr = true; if (s->wire.empty()) { if (s->peer) { s->peer->rx_fin = true; wake_sock(s->peer); } } else s->fin_pending = true; }
+    s->shut_wr = true;
+  }
+  ev("shutdown", s->id, how);
+  wake_sock(s);
+  return 0;
+}
+
+int simk_poll(struct pollfd *fds, nfds_t nfds, int timeout_ms) {
+  int n = sc_enter(SC_POLL);
+  Task *t = cur(); if (!t) return 0;
+  if (nfds != 1) { errno = EINVAL; return -1; }      // the library polls one descriptor at a time
+  int err = 0;
+  FdEnt *e = fd_get(fds[0].fd);
+  if (fds[0].fd < 0) { fds[0].revents = 0; e = nullptr; }
+  else if (!e) { fds[0].revents = POLLNVAL; return 1; }
+  (void)err;
+  SockObj *s = e && e->kind == FD_SOCK ? e->sock : nullptr;
+  uint64_t start = now_ns();
+  uint64_t deadline = timeout_ms < 0 ? UINT64_MAX : start + (uint64_t)timeout_ms * 1000000ULL;
+  bool first = true;
+  for (;;) {
+    short r = s ? poll_events(s, fds[0].events) : 0;
+    if (r) { fds[0].revents = r; ev("poll_ready", s->id, r); return 1; }
+    if (timeout_ms == 0 || now_ns() >= deadline) { fds[0].revents = 0; probe("sock.poll_timed_out"); ev("poll_timeout", s ? s->id : -1); return 0; }
+    // would block: a handled signal interrupts the wait at some instant before the deadline
+    if (want_eintr(SC_POLL, first ? n : -1)) {
+      if (deadline != UINT64_MAX) { uint64_t left = deadline - now_ns(); sleep_until(now_ns() + left * (1 + choose(ST_EINTR, 7)) / 8); }
+      probe("eintr.poll");
+      errno = EINTR; return -1;
+    }
+    first = false;
+    if (!s) { if (deadline == UINT64_MAX) infra_error("poll on nothing for ever"); sleep_until(deadline); continue; }
+    uint64_t dl = deadline;
+    if (dl != UINT64_MAX && cfg().p[ST_TIMER] > 0 && flip(ST_TIMER, cfg().p[ST_TIMER])) dl += 1000ULL * (1 + choose(ST_TIMER, 5000));   // late, never early
+    probe("sock.poll_blocked");
+    wait_sock(s, dl);
+    if (dl != deadline && now_ns() >= deadline) deadline = std::min(deadline, now_ns());
+  }
+}
+
+}  // extern "C"
